@@ -69,3 +69,11 @@ package main
 //@   modifies $weekOK, $cfgOK
 
 
+
+// C18: the chart page. The object name handed to the chart bucket is built from
+// the request path; it is a single path element (no separator, no ".."), so it
+// resolves inside the bucket's directory.
+//@ contract handleChart
+//@   requires chartBucket != nil
+//@   at call loadCharts#1: assert arg1 == date+".json" && !strings.Contains(date, "/") && !strings.Contains(date, "\\") && !strings.Contains(date, "..")
+//@   modifies heap
